@@ -47,7 +47,7 @@ func RacePass(scs []Scenario, iterations int, procs []int) RaceReport {
 	return rep
 }
 
-var frameRe = regexp.MustCompile(`^  ([^\s(]+)\(`)
+var frameRe = regexp.MustCompile(`^  (\S.*)\([^()]*\)$`)
 
 // CollectRaces parses the race detector logs matching prefix* and returns signature -> count.
 // A signature is the pair of innermost git-bug frames of the two conflicting accesses.
